@@ -163,6 +163,28 @@ def require_ok(res, what=None, allow_violated=False):
     return res
 
 
+class time_limit(object):
+    """with time_limit(s): ...  raises TimeoutError in the calling (main) thread of a worker process after s seconds:
+    a change to the code under test must not be able to hang a check"""
+
+    def __init__(self, seconds):
+        self.seconds = seconds
+
+    def __enter__(self):
+        import signal
+
+        def handler(signum, frame):
+            raise TimeoutError('no result within %s s' % self.seconds)
+        self.old = signal.signal(signal.SIGALRM, handler)
+        signal.setitimer(signal.ITIMER_REAL, self.seconds)
+
+    def __exit__(self, *a):
+        import signal
+        signal.setitimer(signal.ITIMER_REAL, 0)
+        signal.signal(signal.SIGALRM, self.old)
+        return False
+
+
 # ----------------------------------------------------------------------------- numbers
 def frac(q):
     """<<num, den>> emitted by the spec -> Fraction."""
@@ -261,16 +283,36 @@ def merge_tlc(results):
     return states, trans, [r.summary() for r in results]
 
 
+class ItemTimeout(Exception):
+    """a unit of replay work did not finish: reported as a violation ('hang') by run.py, never as a machinery failure"""
+
+
+ITEM_LIMIT = float(os.environ.get('VERIF_ITEM_LIMIT', 600))
+
+
+class _Limited(object):
+    def __init__(self, fn):
+        self.fn = fn
+
+    def __call__(self, item):
+        try:
+            with time_limit(ITEM_LIMIT):
+                return self.fn(item)
+        except TimeoutError:
+            raise ItemTimeout('%s(%s)' % (getattr(self.fn, '__name__', 'work'), repr(item)[:400]))
+
+
 def pool_map(fn, items, chunksize=None, procs=None):
     """Run fn over items on a fork pool (the implementation is imported in the children from
-    /repo's current tree)."""
+    /repo's current tree).  Every item runs under a time limit: a change to the code under test that makes a call
+    hang turns into ItemTimeout, which the dispatcher reports as a violation."""
     import multiprocessing as mp
     items = list(items)
     if not items:
         return []
     procs = procs or NCPU
     if procs <= 1 or len(items) < 4:
-        return [fn(x) for x in items]
+        return [_Limited(fn)(x) for x in items]
     ctx = mp.get_context('fork')
     with ctx.Pool(procs) as p:
-        return p.map(fn, items, chunksize or max(1, len(items) // (procs * 8)))
+        return p.map(_Limited(fn), items, chunksize or max(1, len(items) // (procs * 8)))
